@@ -830,6 +830,10 @@ class Blockwise(ArrayExpr):
                             first, last = br
                             if last < first:  # Empty
                                 arg_slices.append(slice(0, 0))
+                            elif arg.shape[dim_idx] == 1 and self.shape[out_pos] != 1:
+                                # A length-1 axis broadcasts against the output
+                                # axis: its single block serves every block.
+                                arg_slices.append(slice(None))
                             else:
                                 in_cumsum = list(cached_cumsum(arg.chunks[dim_idx], initial_zero=True))
                                 arg_slices.append(slice(in_cumsum[first], in_cumsum[last + 1]))
